@@ -45,8 +45,22 @@ def psitxt(rng, legacy=False):
 
 def stattxt(rng):
     keys = list(W.MEMSTAT_KEYS) + ["workingset_refault", "thp_fault_alloc"]
+    if rng.random() < 0.12:
+        # a newer kernel with many more counters: the file spans several 4 KiB pages / stdio buffers
+        keys += ["%s_%d" % (rng.choice(["workingset", "thp", "numa_pages", "zswpin", "pgdemote_kswapd_extra"]), j) for j in range(rng.randint(120, 500))]
     rng.shuffle(keys)
     return "".join("%s %d\n" % (k, big(rng)) for k in keys)
+
+
+def big_iostat(rng):
+    """io.stat of a host with dozens of block devices (> 4 KiB), the configured ones somewhere in between"""
+    devs = ["259:%d" % j for j in range(rng.randint(40, 120))] + ["8:0", "8:16", "253:0"]
+    rng.shuffle(devs)
+    out = []
+    for d in devs:
+        v = [rng.randint(0, 10**12) for _ in range(6)]
+        out.append("%s rbytes=%d wbytes=%d rios=%d wios=%d dbytes=%d dios=%d\n" % (d, v[0], v[1], v[2], v[3], v[4], v[5]))
+    return "".join(out)
 
 
 def node(rng, pids):
@@ -62,7 +76,7 @@ def node(rng, pids):
         "memory.low": limtxt(rng), "memory.min": limtxt(rng), "memory.high": limtxt(rng), "memory.max": limtxt(rng),
         "memory.swap.current": "%d\n" % big(rng), "memory.swap.max": limtxt(rng) if rng.random() < 0.8 else "0\n",
         "memory.oom.group": rng.choice(["0\n", "1\n"]),
-        "io.stat": KG.iostat_text(rng, rng.choice([1, 1000])),
+        "io.stat": KG.iostat_text(rng, rng.choice([1, 1000])) if rng.random() < 0.9 else big_iostat(rng),
         "pids.current": "%d\n" % len(pids),
     }
     if rng.random() < 0.4:
